@@ -3,6 +3,8 @@ mod core;
 mod family;
 mod gen_reg4;
 mod gen_reg10;
+mod gen_reg8;
+mod gen_queries;
 mod raw_ops;
 mod rng;
 mod serde_ops;
@@ -35,7 +37,8 @@ fn run_core<F: Family>(args: &[String]) {
     let out = Box::new(std::io::BufWriter::new(std::io::stdout()));
     let mut it = Interp::<F>::new(out);
     let cfg = GenCfg { ops, profile };
-    for c in 0..cases {
+    let first: u64 = arg(args, "--first", 0);
+    for c in first..cases {
         let name = format!("{}-{}-{}", F::NAME, seed, c);
         run_case::<F>(&mut it, &name, seed.wrapping_mul(1_000_003).wrapping_add(c), &cfg);
     }
@@ -93,7 +96,7 @@ fn family_of_file(path: &str) -> String {
         let line = line.unwrap();
         if let Some(rest) = line.strip_prefix("registry ") {
             let n: usize = rest.split_whitespace().next().unwrap().parse().unwrap();
-            return if n == 10 { "reg10".into() } else { "reg4".into() };
+            return if n == 10 { "reg10".into() } else if n == 8 { "reg8".into() } else { "reg4".into() };
         }
     }
     "reg4".into()
@@ -106,12 +109,14 @@ fn main() {
     match cmd {
         "core" => match fam.as_str() {
             "reg10" => run_core::<gen_reg10::Reg10>(&args),
+            "reg8" => run_core::<gen_reg8::Reg8>(&args),
             _ => run_core::<gen_reg4::Reg4>(&args),
         },
         "replay" => {
             let path = args.get(2).expect("replay <file>");
             match family_of_file(path).as_str() {
                 "reg10" => run_replay::<gen_reg10::Reg10>(path),
+                "reg8" => run_replay::<gen_reg8::Reg8>(path),
                 _ => run_replay::<gen_reg4::Reg4>(path),
             }
         }
